@@ -443,7 +443,7 @@ Proof.
   exists j1, (t2l v), j2. rewrite t2l_idem in B2. auto.
 Qed.
 
-Lemma roundtrip_idempotent_plain cx v : supp 0 cx v ->
+Lemma roundtrip_idempotent_plain_lemma cx v : supp 0 cx v ->
   forall fuel,
   exists j1 v1 j2, ser fuel fixed cx v = Some j1 /\ deser fixed cx (json_rt j1) = Some v1 /\
                    ser fuel fixed cx v1 = Some j2 /\ deser fixed cx (json_rt j2) = Some v1.
